@@ -1,5 +1,6 @@
 """C16 — recorded source positions point at the text they describe."""
 import json
+import re
 from vcheck import *
 import locs
 
@@ -81,7 +82,15 @@ def run(res):
                 good = text.replace("_", "a").replace("$", "a").isalnum() and not text[:1].isdigit()
             elif c == "lit-str":
                 # quoted literal, or a static piece of mixed text (recorded as a string literal spanning that text)
-                good = (len(text) >= 2 and text[0] == text[-1]) if text[:1] in ("'", '"') else True
+                # ... or a literal that ends a binding, merged with the static text that follows the binding (`{{ a + 'x' }}y`
+                # is read as a + "xy"): the node is read from the literal AND the text, its location is their hull
+                if text[:1] in ("'", '"'):
+                    good = len(text) >= 2 and text[0] == text[-1]
+                    if not good:
+                        mm = re.match(r"""^(?:'(?:[^'\\]|\\.)*'|"(?:[^"\\]|\\.)*")\s*\}\}(?:(?!\{\{).)*$""", text, flags=re.S)
+                        good = mm is not None
+                else:
+                    good = True
             elif c == "lit-num":
                 good = len(text) >= 1 and (text[0].isdigit() or text[0] == ".")
             elif c == "static-value":
